@@ -729,6 +729,22 @@ def check_c18(tier, seed):
                 calls.add({"f": "map", "conv": ci, "u": calls.I(u), "configured": pred == pred_ok, "got": [calls.I(x) for x in got]},
                           {"f": "map", "u": u, "pred": pred, "direction": direction, "placement": placement, "how": how, "got": got,
                            "records": [[r.prefix, r.uri_prefix, r.uri_prefix_synonyms] for r in c.records]})
+        # a graph configured with ANOTHER predicate (given as a list / a single URIRef / a str): that one is answered, owl:sameAs is
+        # now an "other predicate" and gives nothing
+        from rdflib import URIRef as _URIRef
+        for k, preds in enumerate(([_URIRef(pred_other)], _URIRef(pred_other), pred_other)):
+            if thorough_forms or k == (len(u) % 3):
+                g2 = MappingServiceGraph(converter=c, predicates=preds)
+                p2 = MappingServiceSPARQLProcessor(graph=g2)
+                for pred in (pred_ok, pred_other):
+                    q, var = sparql(u, pred, "s", "after")
+                    try:
+                        got = [str(row[0]) for row in g2.query(q, processor=p2)]
+                    except Exception as e:  # noqa: BLE001
+                        got = ["!error:" + type(e).__name__]
+                    calls.add({"f": "map", "conv": ci, "u": calls.I(u), "configured": pred == pred_other, "got": [calls.I(x) for x in got]},
+                              {"f": "map", "u": u, "pred": pred, "direction": "s", "placement": "after", "how": "processor, graph configured with " + repr(preds), "got": got,
+                               "records": [[r.prefix, r.uri_prefix, r.uri_prefix_synonyms] for r in c.records]})
     # the model's URIs against the model's converter (a record nested under another record's canonical URI prefix)
     mstates = [s_["st"] for s_ in states if s_.get("st", {}).get("kind") == "map" and s_["st"]["u"]]
     if cex:
